@@ -65,6 +65,10 @@ Tables ==
                       ELSE {"/", "/r", "/r/a", "/{w}", "/r/{w}", "/{w}/a", "/{w:[0-9]+}", "/{v:[a-z]+}", "/r/{w:[0-9]+}"}
              rts == {<<R0("GET", "")>>, <<R0("GET", "/a")>>, <<R0("GET", "/{x}")>>}
          IN {<<Svc(p[1], a), Svc(p[2], b)>> : p \in {x \in roots \X roots : x[1] # x[2]}, a \in rts, b \in rts}
+    [] Mode = "roots4" ->
+         \* crossing roots of four tokens whose CurlyRouter scores are equal (10*(4+1)+2 = 10*(3+2)+2)
+         LET rts == {<<R0("GET", "")>>, <<R0("GET", "/{z}")>>} IN
+         {<<Svc("/a/{x}/{y}/d", a), Svc("/{x}/b/c/{y}", b)>> : a \in rts, b \in rts}
     [] Mode = "order3" ->
          \* three routes of one service that can all match one URL (ranking beyond the best match)
          LET pool == SetToSeq(Routes1({"/a/b", "/a/{x}", "/{x}/b", "/{x}/{y}"}, {"GET", "PUT"})) IN
@@ -116,8 +120,15 @@ DerivedPaths(T) ==
                                p \in {x \in (1..Len(T[w].routes)) \X (1..Len(T[w].routes)) :
                                         x[1] < x[2] /\ Len(T[w].routes[x[1]].pt) = Len(T[w].routes[x[2]].pt)}} :
                         w \in 1..Len(T)}
+      \* ... and, for the root pools, templates of DIFFERENT services (URLs two roots both claim)
+      AllR == UNION {{<<w, r>> : r \in 1..Len(T[w].routes)} : w \in 1..Len(T)}
+      cross == IF Mode \in {"roots", "roots4"}
+               THEN UNION {MixInstances(T[p[1][1]].routes[p[1][2]].pt, T[p[2][1]].routes[p[2][2]].pt, 1) :
+                             p \in {x \in AllR \X AllR : x[1][1] < x[2][1] /\
+                                      Len(T[x[1][1]].routes[x[1][2]].pt) = Len(T[x[2][1]].routes[x[2][2]].pt)}}
+               ELSE {}
       more == {s \o <<"a">> : s \in base} \cup {SubSeq(s, 1, Len(s) - 1) : s \in {x \in base : Len(x) > 0}}
-  IN {PathOf(s) : s \in base \cup more \cup mixed} \cup {"/"}
+  IN {PathOf(s) : s \in base \cup more \cup mixed \cup cross} \cup {"/"}
 
 Rq(m, path, ct, acc, clen, clh, conds) ==
   [m |-> m, path |-> path, ct |-> ct, acc |-> acc, clen |-> clen, clh |-> clh, conds |-> conds]
